@@ -1,7 +1,8 @@
 // Unit `cryptkdf` (C06): the key-derivation and password-check bodies of pdf/src/crypt.rs that unit `decrypt` trusts:
 // the nested fns of Decoder::from_password (ISO 32000-1 7.6.3.3/7.6.3.4 Algorithms 2, 3 a-d, 4, 5, 6) and
 // Decoder::revision_6_kdf (ISO 32000-2 7.6.4.3.4 Algorithm 2.B); Decoder::from_password itself is re-proved on top of
-// the *proved* contracts (Algorithms 6, 7, 2.A).  MD5, SHA-2, RC4, AES-CBC are uninterpreted spec functions; the
+// the *proved* contracts (Algorithms 6, 7, 2.A).  MD5, SHA-2, AES-CBC are uninterpreted spec functions, RC4 is the
+// spec function `rc4` of units/rc4 (shared include rc4/rc4_spec.rs; the real Rc4::encrypt is proved against it there); the
 // md5::Context / sha2 feed is ghost state (the sequence of bytes consumed so far).
 use vstd::prelude::*;
 use std::collections::HashMap;
@@ -13,14 +14,16 @@ global size_of usize == 8;
 //@@ DEVIATIONS
 
 // =====================================================================================================
-// primitives: uninterpreted
+// primitives: uninterpreted, except RC4 (defined: units/rc4)
 // =====================================================================================================
 pub uninterp spec fn md5_spec(input: Seq<u8>) -> Seq<u8>;
 pub uninterp spec fn sha256_spec(input: Seq<u8>) -> Seq<u8>;
 pub uninterp spec fn sha384_spec(input: Seq<u8>) -> Seq<u8>;
 pub uninterp spec fn sha512_spec(input: Seq<u8>) -> Seq<u8>;
-/// RC4 with `key` applied to `data` (encryption == decryption)
-pub uninterp spec fn rc4_spec(key: Seq<u8>, data: Seq<u8>) -> Seq<u8>;
+// RC4 is NOT uninterpreted: `rc4(key, data)` (KSA + PRGA, Schneier 17.1 / RFC 6229; encryption == decryption) is the spec function of
+// units/rc4, shared through this include together with its proved lemmas (`lemma_rc4_commutes`, `lemma_rc4_involution`, ..).
+// It is `#[verifier::opaque]`: the obligations below use it as a fixed function of (key, data) only.
+//@@ INCLUDE rc4/rc4_spec.rs
 /// AES-128, CBC mode, no padding, encryption
 pub uninterp spec fn aes128_cbc_enc(key: Seq<u8>, iv: Seq<u8>, data: Seq<u8>) -> Seq<u8>;
 /// AES-256, CBC, no padding, decryption; None iff the data is not a whole number of blocks
@@ -80,18 +83,18 @@ pub open spec fn alg3_owner_key(rev: u32, n: usize, pass: Seq<u8>) -> Seq<u8> {
 }
 pub open spec fn xor_key(k: Seq<u8>, c: u8) -> Seq<u8> { Seq::new(k.len(), |i: int| k[i] ^ c) }
 /// Algorithm 4 b): "Encrypt the 32-byte padding string [...] using an RC4 encryption function with the encryption key"
-pub open spec fn alg4_u(key: Seq<u8>) -> Seq<u8> { rc4_spec(key, iso_padding()) }
+pub open spec fn alg4_u(key: Seq<u8>) -> Seq<u8> { rc4(key, iso_padding()) }
 /// Algorithm 5 e): "Do the following 19 times: Take the output from the previous invocation of the RC4 function and
 /// pass it as input to a new invocation of the function; use an encryption key generated by taking each byte of the
 /// original encryption key obtained in step (a) and performing an XOR operation between that byte and the single-byte
 /// value of the iteration counter (from 1 to 19)."  alg5_up(key, d, c) applies the counters 1, 2, ..., c in that order.
 pub open spec fn alg5_up(key: Seq<u8>, d: Seq<u8>, c: int) -> Seq<u8> decreases c {
-    if c <= 0 { d } else { rc4_spec(xor_key(key, c as u8), alg5_up(key, d, c - 1)) }
+    if c <= 0 { d } else { rc4(xor_key(key, c as u8), alg5_up(key, d, c - 1)) }
 }
 /// Algorithm 5 b)-e): MD5 over "the 32-byte padding string" and "the first element of the file's file identifier
 /// array"; "Encrypt the 16-byte result of the hash, using an RC4 encryption function with the encryption key"; e)
 pub open spec fn alg5_u16(id: Seq<u8>, key: Seq<u8>) -> Seq<u8> {
-    alg5_up(key, rc4_spec(key, md5_spec(iso_padding() + id)), 19)
+    alg5_up(key, rc4(key, md5_spec(iso_padding() + id)), 19)
 }
 /// Algorithm 6 b): "If the result of step (a) is equal to the value of the encryption dictionary's U entry (comparing
 /// on the first 16 bytes in the case of security handlers of revision 3 or greater), the password supplied is the
@@ -132,13 +135,16 @@ pub mod md5 {
 pub assume_specification<T> [std::mem::replace] (dest: &mut T, src: T) -> (r: T)
     ensures *final(dest) == src, r == *old(dest);
 
-/// abstract callee Rc4::encrypt (pdf/src/crypt.rs): `Rc4::new` asserts `!key.is_empty() && key.len() <= 256`
+/// callee Rc4::encrypt (pdf/src/crypt.rs), body not repeated here.
+/// proved in units/rc4: Rc4::encrypt/is_rc4_in_place (+ panic_free, terminates) -- same `requires`
+/// (`Rc4::new` asserts `!key.is_empty() && key.len() <= 256`) and the same `ensures`, text for text, over the same
+/// spec function `rc4` (rc4/rc4_spec.rs).
 pub struct Rc4 {}
 impl Rc4 {
     #[verifier::external_body]
     pub fn encrypt(key: &[u8], data: &mut [u8])
         requires 1 <= key@.len() <= 256
-        ensures final(data)@ == rc4_spec(key@, old(data)@)
+        ensures final(data)@ == rc4(key@, old(data)@)
     { unimplemented!() }
 }
 
@@ -534,30 +540,27 @@ pub open spec fn prep_utf8(pass: Seq<u8>) -> Option<Seq<u8>> {
 /// an XOR operation between each byte of the key and the single-byte value of the iteration counter (from 19 to 0)."
 /// alg7_down(k, d, c) applies the counters c-1, c-2, ..., 0 in that order.
 pub open spec fn alg7_down(k: Seq<u8>, d: Seq<u8>, c: int) -> Seq<u8> decreases c {
-    if c <= 0 { d } else { alg7_down(k, rc4_spec(xor_key(k, (c - 1) as u8), d), c - 1) }
+    if c <= 0 { d } else { alg7_down(k, rc4(xor_key(k, (c - 1) as u8), d), c - 1) }
 }
 /// Algorithm 7 step b): R2 "decrypt the value of the O entry using an RC4 encryption function with the key"
 pub open spec fn alg7_user_password(rev: u32, k: Seq<u8>, o: Seq<u8>) -> Seq<u8> {
-    if rev == 2 { rc4_spec(k, o) } else { alg7_down(k, o, 20) }
+    if rev == 2 { rc4(k, o) } else { alg7_down(k, o, 20) }
 }
 /// the order the implementation uses: counters 0, 1, ..., c-1
 pub open spec fn rounds_up(k: Seq<u8>, d: Seq<u8>, c: int) -> Seq<u8> decreases c {
-    if c <= 0 { d } else { rc4_spec(xor_key(k, (c - 1) as u8), rounds_up(k, d, c - 1)) }
+    if c <= 0 { d } else { rc4(xor_key(k, (c - 1) as u8), rounds_up(k, d, c - 1)) }
 }
-/// TRUSTED property of the uninterpreted primitive: RC4 is a stream cipher (output = data XOR keystream(key)),
-/// hence two applications with different keys commute.
-#[verifier::external_body]
-pub proof fn axiom_rc4_commutes(a: Seq<u8>, b: Seq<u8>, d: Seq<u8>)
-    ensures rc4_spec(a, rc4_spec(b, d)) == rc4_spec(b, rc4_spec(a, d))
-{}
+// RC4 is a stream cipher (output = data XOR keystream(key)), hence two applications with different keys commute:
+// `lemma_rc4_commutes(a, b, d)` of units/rc4 (rc4/rc4_spec.rs, PROVED there and re-checked in this file). Until units/rc4 existed
+// this was a trusted statement about an uninterpreted function.
 pub proof fn lemma_push(x: Seq<u8>, k: Seq<u8>, d: Seq<u8>, c: int)
-    ensures rc4_spec(x, alg7_down(k, d, c)) == alg7_down(k, rc4_spec(x, d), c)
+    ensures rc4(x, alg7_down(k, d, c)) == alg7_down(k, rc4(x, d), c)
     decreases c
 {
     if c > 0 {
         let y = xor_key(k, (c - 1) as u8);
-        axiom_rc4_commutes(y, x, d);
-        lemma_push(x, k, rc4_spec(y, d), c - 1);
+        lemma_rc4_commutes(y, x, d);
+        lemma_push(x, k, rc4(y, d), c - 1);
     }
 }
 pub proof fn lemma_up_is_down(k: Seq<u8>, d: Seq<u8>, c: int)
@@ -645,8 +648,8 @@ pub proof fn lemma_alg7(rev: u32, k: Seq<u8>, o: Seq<u8>, rounds: int)
     lemma_up_is_down(k, o, rounds);
     if rev == 2 && rounds == 1 {
         lemma_xor_zero(k);
-        assert(alg7_down(k, rc4_spec(xor_key(k, 0u8), o), 0) == rc4_spec(xor_key(k, 0u8), o));
-        assert(alg7_down(k, o, 1) == rc4_spec(k, o));
+        assert(alg7_down(k, rc4(xor_key(k, 0u8), o), 0) == rc4(xor_key(k, 0u8), o));
+        assert(alg7_down(k, o, 1) == rc4(k, o));
     }
 }
 pub proof fn lemma_concat_empty(a: Seq<u8>)
